@@ -889,12 +889,21 @@ impl<'a> RepositoryUpdate<'a> {
         self.metrics.serial = Some(notify.content().serial());
         self.metrics.session = Some(notify.content().session_id());
 
+        // A delta update that fails part way leaves the archive with some
+        // changes applied but the old state. If the snapshot update doesn’t
+        // replace it, it must not be kept.
+        let mut tainted = false;
         if let Some((archive, state)) = current {
             match self.delta_update(&notify, archive, state)? {
                 None => {
                     return Ok(true)
                 }
                 Some(reason) => {
+                    tainted = matches!(
+                        reason,
+                        SnapshotReason::ConflictingDelta
+                        | SnapshotReason::CorruptArchive
+                    );
                     self.metrics.snapshot_reason = Some(reason)
                 }
             }
@@ -902,7 +911,28 @@ impl<'a> RepositoryUpdate<'a> {
         else {
             self.metrics.snapshot_reason = Some(SnapshotReason::NewRepository);
         }
-        self.snapshot_update(&notify)
+        let res = self.snapshot_update(&notify);
+        if tainted && !matches!(res, Ok(true)) {
+            self.remove_tainted()?;
+        }
+        res
+    }
+
+    /// Removes the archive after a failed delta update.
+    fn remove_tainted(&mut self) -> Result<(), RunFailed> {
+        self.log.warn(format_args!(
+            "Delta and snapshot update failed. Removing local copy."
+        ));
+        if let Err(err) = fs::remove_file(self.path.as_ref()) {
+            if !matches!(err.kind(), io::ErrorKind::NotFound) {
+                error!(
+                    "Fatal: Failed to delete RRDP repository file {}: {}",
+                    self.path.display(), err
+                );
+                return Err(RunFailed::fatal())
+            }
+        }
+        Ok(())
     }
 
     /// Handle the case of a Not Modified response.
